@@ -537,5 +537,13 @@ def _shared_default(prog):
     return shared_default(prog, ["adapters.json_serializer"], 10)
 
 
+def _sg_singleton(prog):
+    # the registry of serialisers for foreign types is a singleton: what was registered (uuid at import time, the user's types) must be what
+    # to_json / from_json find, whoever calls them
+    from .c13 import sg_singleton
+
+    return sg_singleton(prog)
+
+
 def run(prog: Program, tier: str) -> List[RuleResult]:
-    return [guard(lambda: js_tag(prog, tier)), guard(lambda: js_agree(prog)), guard(lambda: js_pure(prog)), guard(lambda: _shared_default(prog)), guard(lambda: js_leaf(prog))]
+    return [guard(lambda: js_tag(prog, tier)), guard(lambda: js_agree(prog)), guard(lambda: js_pure(prog)), guard(lambda: _shared_default(prog)), guard(lambda: js_leaf(prog)), guard(lambda: _sg_singleton(prog))]
